@@ -163,37 +163,47 @@ Fixpoint cmon (cfg : config) (m : cmst) (i : Z) (evs : list event) : cmst + list
 Definition reindex (i : Z) (d : list Z) : list Z :=
   match d with [e; _; c] => [e; i; c] | _ => d end.
 
-Definition monitor_during2 (cfg : config) (np : nat) (pre : list (op * obs)) (script : list op)
+Definition monitor_during2 (cfg : config) (np : nat) (pre : list (op * obs)) (ev : Z * list op * list nat)
            (x : obs) (post : list (op * obs)) : list Z :=
+  let '(hp, script, pruned) := ev in
   match mon_prefix cfg np (ainit cfg) 0 pre with
   | inr d => d
   | inl (a0, i) =>
-      match cmon cfg (cm_init a0) i ([ETrimBegin] ++ map ESnap (seq 0 np) ++ [ESnapEnd] ++ map EOp script) with
+      (* hook point 1: ... snapshot, SCRIPT, selection (prunes), closes;
+         hook point 2: ... snapshot, selection (prunes), SCRIPT, closes *)
+      let head := [ETrimBegin] ++ map ESnap (seq 0 np) ++ [ESnapEnd] in
+      let mid := if hp =? 2 then map EPrune pruned ++ map EOp script else map EOp script in
+      match cmon cfg (cm_init a0) i (head ++ mid) with
       | inr d => reindex i d
       | inl m1 =>
-          let pruned := filter (fun p => let a := ap_at (m_a m1) p in
-                                         a_known a && is_nil (a_conns a)
-                                         && negb (fst (fst (nth p (o_peers x) (true, 0, 0)))))
-                               (seq 0 np) in
-          match cmon cfg m1 i (map EPrune pruned ++ [EClosed (o_closed x)]) with
+          let late_pruned :=
+            if hp =? 2 then []
+            else filter (fun p => let a := ap_at (m_a m1) p in
+                                  a_known a && is_nil (a_conns a)
+                                  && negb (fst (fst (nth p (o_peers x) (true, 0, 0)))))
+                        (seq 0 np) in
+          match cmon cfg m1 i (map EPrune late_pruned ++ [EClosed (o_closed x)]) with
           | inr d => reindex i d
           | inl m2 =>
               let a2 := m_a m2 in
-              if negb (o_count x =? acount a2) then [ERR_PROPERTY; i; 3]
+              (* hook point 2: the selection was over before the script ran, so
+                 the closed set must also satisfy the sequential clauses *)
+              if (hp =? 2) && negb (trim_code cfg a0 (o_closed x) =? 0) then [ERR_PROPERTY; i; trim_code cfg a0 (o_closed x)]
+              else if negb (o_count x =? acount a2) then [ERR_PROPERTY; i; 3]
               else if negb (list_eqb pobs_eqb (o_peers x) (map (expect_peer a2) (seq 0 np))) then [ERR_PROPERTY; i; 4]
               else mon_run cfg np a2 (i + 1) post
           end
       end
   end.
 
-Definition conform_case (l : list Z) : list Z := Spec.conform_case l.
+Definition conform_case (l : list Z) : list Z := conform_case_seq l.
 
 Definition monitor_case (l : list Z) : list Z :=
   match l with
   | 2 :: _ =>
       match decode_during l with
-      | Some (cfg, np, pre, script, x, post) => monitor_during2 cfg np pre script x post
+      | Some (cfg, np, pre, ev, x, post) => monitor_during2 cfg np pre ev x post
       | None => [ERR_MALFORMED; 2]
       end
-  | _ => Spec.monitor_case l
+  | _ => monitor_case_seq l
   end.
